@@ -55,7 +55,7 @@ class C05(object):
     required_counters = ('models.judged', 'lhs.judged', 'rhs_names.judged', 'meaning.judged', 'embedded.judged',
                          'embedded.in_global_equation', 'placeholders.handed_out', 'embedded.form.term_product',
                          'embedded.form.term_ratio', 'embedded.form.string_rhs', 'embedded.form.exogenous', 'late_sector.declared',
-                         'codes_generated_mid_construction', 'built_by_step_runner',
+                         'codes_generated_mid_construction', 'built_by_step_runner', 'cross_rates.requested_before_build',
                          'rebuilt_with_names_kept_from_before_first_build')
 
     def n_cases(self, tier):
@@ -109,6 +109,24 @@ class C05(object):
                 late.AddVariable('Y', 'uses a local name', 'X + 1.0')
                 sectors.append(((ck0, 'LATE'), late))
                 rec.count('late_sector.declared')
+            # cross rates requested by user code before the build (the build itself asks for the same rates later,
+            # when it converts cross-currency flows)
+            ext = mod.ExternalSector
+            curs = [z['cur'] for z in spec['zones']]
+            if ext is not None and len(curs) >= 2 and case.get('ask_cross_rates', True):
+                xr = ext['XR']
+                for (ca, cb) in [(a_, b_) for a_ in curs for b_ in curs if a_ != b_][:4]:
+                    name = xr.GetCrossRate(ca, cb)
+                    was_ph = PLACEHOLDER.match(name) is not None
+                    if was_ph:
+                        handed.append((name, xr, '%s_%s' % (ca, cb)))
+                    holder = rng.choice(sectors)[1]
+                    var = 'XRUSE_%s_%s' % (ca, cb)
+                    if var in holder.EquationBlock:
+                        continue
+                    holder.AddVariable(var, 'uses a cross rate requested before the build', '2.0*%s + 1.0' % name)
+                    embedded.append((holder, var, xr, '%s_%s' % (ca, cb), was_ph, 'blob', None))
+                    rec.count('cross_rates.requested_before_build')
             for i in range(case['n_embed']):
                 (tk, tsec) = rng.choice(sectors)
                 locs = [l for l in EMBED_LOCALS + ['X', 'Y'] if l in tsec.EquationBlock]
